@@ -59,8 +59,13 @@ func e2scenarios(quick bool) []e2scenario {
 		// one spend is already pooled when the commit (unrelated block) and the conflicting submission race
 		{Name: "pool(s1);add(s1x)|add(s1m)|commit[s2]", PrePool: []string{"s1"}, Add: []string{"s1x", "s1m"}, Block: []string{"s2"}, After: []string{"s1a"}},
 	}
+	// a commit that does not touch the pool at all — the EMPTY block — racing the conflicting submission: the pending
+	// spend's key image must still be known afterwards (the cache is reset by every commit and rebuilt by the recheck)
+	sc = append(sc, e2scenario{Name: "pool(s1);add(s1x)|commit[]", PrePool: []string{"s1"}, Add: []string{"s1x"}, Block: []string{}, After: []string{"s1m"}})
 	if !quick {
 		sc = append(sc,
+			e2scenario{Name: "pool(s1);add(s1x)|add(s1m)|commit[]", PrePool: []string{"s1"}, Add: []string{"s1x", "s1m"}, Block: []string{}, After: []string{"s1a"}},
+			e2scenario{Name: "pool(a0,s1);add(a0x)|add(s1x)|commit[]", PrePool: []string{"a0", "s1"}, Add: []string{"a0x", "s1x"}, Block: []string{}, After: []string{"s1m"}},
 			e2scenario{Name: "add(s1)|add(s12)|commit[s2]", Add: []string{"s1", "s12"}, Block: []string{"s2"}, After: []string{"s1x", "s12"}},
 			e2scenario{Name: "pool(s1);add(s1x)|add(s2)|commit[s12]", PrePool: []string{"s1"}, Add: []string{"s1x", "s2"}, Block: []string{"s12"}, After: []string{"s1m"}},
 			e2scenario{Name: "pool(s1,s2);add(s1x)|add(s12)|commit[a0]", PrePool: []string{"s1", "s2"}, Add: []string{"s1x", "s12"}, Block: []string{"a0"}, After: []string{"s1m"}},
